@@ -237,7 +237,12 @@ def r3_ordering(ctx):
         or unify(al, ["for (zip($1, $2), (?t, ?o))", "?idx = " + B_, "$0.timepoints = np.concatenate([$0.timepoints[:?idx], [?t], $0.timepoints[?idx:]])",
                       "$0.observations = np.concatenate([$0.observations[:?idx], [?o], $0.observations[?idx:]])"])
     as_ = " ".join(al)
-    if ba is not None:
+    restricted = [c for c in ast.walk(ad.node) if isinstance(c, ast.Call) and U(c.func) in ("bisect", "bisect.bisect", "bisect_right", "bisect_left", "bisect.bisect_right", "bisect.bisect_left", "np.searchsorted")
+                  and (len(c.args) > 2 or any(k.arg in ("lo", "hi", "sorter") and U(k.value) not in ("0", "None") for k in c.keywords))]
+    if restricted:
+        ctx.violation("C14.R3", ad, restricted[0], f"`{U(restricted[0])[:70]}` searches only a sub-range of the ages already stored: the insertion index is not the sorted position of the new age "
+                      "(visits given neither in ascending nor descending order end up unsorted)", construct="sorted insertion of ages")
+    elif ba is not None:
         ctx.check(ba["#1"] < ba["#2"], "C14.R3", ad, ad.node, "ages inserted at the bisection index (computed on the ages before insertion)", "the insertion index is computed after the age was inserted", construct="sorted insertion of ages")
         ctx.ok("C14.R3", ad, ad.node, "values inserted at the same index as their age", construct="sorted insertion of values")
     elif not any(t in as_ for t in ("bisect", "searchsorted", "sort")):
@@ -330,5 +335,6 @@ VARIANTS = [
     V("silent-rename-event-local", ER, "df_event", "events", None, count=16),
     V("silent-rename-mask-local", "src/leaspy/io/data/dataset.py", "mask_missingvalues", "not_nan", None, count=2),
     V("unsorted-insertion", "src/leaspy/io/data/individual_data.py", "                index = bisect(self.timepoints, t)\n", "                index = len(self.timepoints)\n", "C14.R3"),
+    V("bisect-resumes-from-last-index", "src/leaspy/io/data/individual_data.py", "                index = bisect(self.timepoints, t)\n", "                index = bisect(self.timepoints, t, lo=0 if self.timepoints is None else min(len(self.timepoints), 1))\n", "C14.R3"),
     V("mask-ignores-nan", "src/leaspy/io/data/dataset.py", "        mask = padding_mask * mask_missingvalues", "        mask = padding_mask", "C14.R3"),
 ]
